@@ -136,6 +136,20 @@ def run(facts):
         # unsplit: append only when try_unsplit reported Err
         if root.endswith("::unsplit"):
             merged_failed = any(r[0] in ("truth", "notin", "eq") and "try_unsplit" in str(canon(r[1])) for r in rels)
+            if not merged_failed:
+                # the merge written out in place (`if self.is_directly_followed_by(&other) { self.len += other.len; .. } else { copy }`): the copy
+                # sits on the other side of the branch that merges (A8 decides that the merge side is taken exactly under adjacency)
+                ebm = ExprBuilder(b, facts, inline=False)
+                cfgm = cfg_of(b)
+                for mbi, mblk in enumerate(b.blocks):
+                    for msi, ms in enumerate(mblk["stmts"]):
+                        if ms["k"] == "assign" and ms["pl"]["l"] == 1 and len(ms["pl"]["p"]) == 2 and ms["pl"]["p"][0] == "*" and isinstance(ms["pl"]["p"][1], dict) \
+                                and str(ms["pl"]["p"][1].get("n")) == "len":
+                            ev = canon(ebm.rvalue(ms["rv"], (mbi, msi), 0))
+                            if isinstance(ev, tuple) and ev and ev[0] == "bin" and ev[1] == "Add" and any(
+                                    isinstance(y, tuple) and y and y[0] == "field" and y[2] == "len" and ("param", 2) in list(walk(y)) for y in (ev[2], ev[3])):
+                                if mbi != bi and not cfgm.reaches(mbi, bi) and not cfgm.reaches(bi, mbi):
+                                    merged_failed = True
             # .. and only when `self` holds something: an empty handle takes `other` over as it is (no copy, no allocation - the documented
             # O(1) way to glue parts onto a fresh or cleared handle, which a recycling loop relies on, C18)
             def self_len(e):
